@@ -91,7 +91,9 @@ public:
   }
 
   const ValueT& at(const KeyT& k) const {
-    Item& item = this->items.at(k);
+    // The recency links (and head/tail) are mutable, so touching is allowed
+    // here, but the map only hands out const items in a const method
+    Item& item = const_cast<Item&>(this->items.at(k));
     this->touch_item(item);
     return item.value;
   }
